@@ -143,10 +143,10 @@ theorem mem_nodeIds {o : List SNode} {i : Int} : i ∈ nodeIds o ↔ ∃ n ∈ o
 theorem mem_nodeIds_of_mem {o : List SNode} {n : SNode} (h : n ∈ o) : n.id ∈ nodeIds o := mem_nodeIds.mpr ⟨n, h, rfl⟩
 
 theorem newId_of_mem {o : List SNode} {i : Int} (h : i ∈ nodeIds o) :
-    newId o i = ((nodeIds o).idxOf i : Int) + 1 := by simp [newId, h, firstId]
+    newId o i = ((nodeIds o).idxOf i : Int) + 1 := by simp [newId, h, firstId, Gen.Swc.firstId]
 
 theorem newId_of_not_mem {o : List SNode} {i : Int} (h : i ∉ nodeIds o) : newId o i = -1 := by
-  simp [newId, h, missingParent]
+  simp [newId, h, missingParent, Gen.Swc.missingParent]
 
 theorem idxOf_id_getElem {o : List SNode} (hnd : (nodeIds o).Nodup) (k : Nat) (h : k < o.length) :
     (nodeIds o).idxOf o[k].id = k := by
@@ -505,17 +505,20 @@ theorem mem_connsOf_finish (lab : SNode → Option Int) (o : List SNode) (cfg : 
 /-- `labels=True`: which nodes get the soma label. -/
 theorem autoLabel_eq_soma (sk : Skel) (ex : Bool) (n : SNode) :
     autoLabel sk ex n = lblSoma ↔ n.id ∈ sk.soma ∧ (ex = true → n.id ∉ sk.post ∧ n.id ∉ sk.pre) := by
-  unfold autoLabel lblSoma lblBranch lblEnd lblUndefined lblPost lblPre
+  unfold autoLabel lblSoma lblBranch lblEnd lblUndefined lblPost lblPre Gen.Swc.lblSoma Gen.Swc.lblBranch Gen.Swc.lblEnd
+    Gen.Swc.lblUndefined Gen.Swc.lblPost Gen.Swc.lblPre
   cases ex <;> simp <;> split <;> (try split) <;> (try split) <;> (try split) <;> simp_all <;> omega
 
 theorem autoLabel_eq_post (sk : Skel) (n : SNode) :
     autoLabel sk true n = lblPost ↔ n.id ∈ sk.post := by
-  unfold autoLabel lblSoma lblBranch lblEnd lblUndefined lblPost lblPre
+  unfold autoLabel lblSoma lblBranch lblEnd lblUndefined lblPost lblPre Gen.Swc.lblSoma Gen.Swc.lblBranch Gen.Swc.lblEnd
+    Gen.Swc.lblUndefined Gen.Swc.lblPost Gen.Swc.lblPre
   simp; split <;> (try split) <;> (try split) <;> (try split) <;> (try split) <;> simp_all <;> omega
 
 theorem autoLabel_eq_pre (sk : Skel) (n : SNode) :
     autoLabel sk true n = lblPre ↔ n.id ∈ sk.pre ∧ n.id ∉ sk.post := by
-  unfold autoLabel lblSoma lblBranch lblEnd lblUndefined lblPost lblPre
+  unfold autoLabel lblSoma lblBranch lblEnd lblUndefined lblPost lblPre Gen.Swc.lblSoma Gen.Swc.lblBranch Gen.Swc.lblEnd
+    Gen.Swc.lblUndefined Gen.Swc.lblPost Gen.Swc.lblPre
   simp; split <;> (try split) <;> (try split) <;> (try split) <;> (try split) <;> simp_all <;> omega
 
 end Navis.Swc
